@@ -1,7 +1,8 @@
 (** C12 – field width, alignment and truncation.
-    Transcribes  PaddedStringDisplay::fmt          (/repo/src/style.rs:728-763),
+    Transcribes  PaddedStringDisplay::fmt          (/repo/src/style.rs:734-769),
                  the width/None split of a placeholder (src/style.rs:365-384),
-                 WideElement::Message expansion        (src/style.rs:436-481, arm 459-479).
+                 WideElement::Message expansion        (src/style.rs:437-482, arm 461-480).
+    Line numbers refer to /repo at commit 96a75c4.
 
     A string is a list of characters; each character carries its code point and its
     terminal column width.  The UTF-8 byte length is COMPUTED from the code point
@@ -54,18 +55,18 @@ Inductive align := ALeft | ACenter | ARight.
 Definition sp : ch := mkch 32 1.
 Definition spaces (n : N) : str := N.iter n (cons sp) [].
 
-(** byte range chosen by the truncating branch, style.rs:735-742.  [None] = the usize
+(** byte range chosen by the truncating branch, style.rs:741-748.  [None] = the usize
     subtraction `self.str.len() - excess` underflows (a panic with overflow checks, as
     in the harness build; without them it wraps to a huge offset and `get` answers None). *)
 Definition trunc_range (a : align) (len excess : N) : option (N * N) :=
   match a with
-  | ALeft => if len <? excess then None else Some (0, len - excess)                 (* :736 *)
-  | ARight => Some (excess, len)                                                     (* :737 *)
-  | ACenter => let e2 := excess - excess / 2 in                                      (* :740 saturating_sub *)
-               if len <? e2 then None else Some (excess / 2, len - e2)              (* :738-741 *)
+  | ALeft => if len <? excess then None else Some (0, len - excess)                 (* :742 *)
+  | ARight => Some (excess, len)                                                     (* :743 *)
+  | ACenter => let e2 := excess - excess / 2 in                                      (* :746 saturating_sub *)
+               if len <? e2 then None else Some (excess / 2, len - e2)              (* :744-747 *)
   end.
 
-(* style.rs:748-752 *)
+(* style.rs:754-758 *)
 Definition pad_split (a : align) (diff : N) : N * N :=
   match a with
   | ALeft => (0, diff)
@@ -75,19 +76,19 @@ Definition pad_split (a : align) (diff : N) : N * N :=
 
 (** PaddedStringDisplay { str, width, align, truncate }.fmt *)
 Definition padded (s : str) (width : N) (a : align) (truncate : bool) : outcome str :=
-  let c := cols s in                                   (* :730 *)
-  let excess := c - width in                           (* :731 saturating_sub *)
-  if (0 <? excess) && negb truncate then Ok s          (* :732-733 *)
-  else if 0 <? excess then                             (* :734 *)
+  let c := cols s in                                   (* :736 *)
+  let excess := c - width in                           (* :737 saturating_sub *)
+  if (0 <? excess) && negb truncate then Ok s          (* :738-739 *)
+  else if 0 <? excess then                             (* :740 *)
     match trunc_range a (blen s) excess with
     | None => Panic 1
     | Some (st, en) =>
-        Ok (match str_get s st en with Some t => t | None => s end)   (* :744 get(..).unwrap_or(self.str) *)
+        Ok (match str_get s st en with Some t => t | None => s end)   (* :750 get(..).unwrap_or(self.str) *)
     end
   else
-    let diff := width - c in                           (* :747 *)
+    let diff := width - c in                           (* :753 *)
     let '(l, r) := pad_split a diff in
-    Ok (spaces l ++ s ++ spaces r).                    (* :754-761 *)
+    Ok (spaces l ++ s ++ spaces r).                    (* :760-767 *)
 
 (** One template line  pre{key:<align><width>[!]}post  with literal text before and
     after a single placeholder whose content is [s] (format_state, style.rs:365-386;
@@ -115,15 +116,15 @@ Definition trim_end (s : str) : str :=
                            end) [] s.
 
 (** One template line  pre{wide_msg[:align]}post  drawn at terminal width [tw]
-    (WideElement::Message, style.rs:452 and 459-479).  `cur` is pre ++ "\0" ++ post;
+    (WideElement::Message, style.rs:452 and 461-480).  `cur` is pre ++ "\0" ++ post;
     pre/post contain no NUL (assumption of this model), hence `cur` ends with NUL iff
     post is empty. *)
 Definition wide_line (pre post msg : str) (a : align) (tw : N) : outcome str :=
   let left := tw - cols (pre ++ post) in                 (* :452 saturating_sub(measure(cur minus NUL)) *)
-  match padded msg left a true with                      (* :461-470 truncate: true *)
+  match padded msg left a true with                      (* :463-472 truncate: true *)
   | Panic k => Panic k
   | Ok buf =>
-      let trimmed := match post with [] => trim_end buf | _ => buf end in   (* :472-477 *)
+      let trimmed := match post with [] => trim_end buf | _ => buf end in   (* :474-477 *)
       Ok (pre ++ trimmed ++ post)                        (* :479 cur.replace('\0', trimmed) *)
   end.
 
